@@ -688,6 +688,7 @@ package fzf
 // A newly built pattern carries the options it was built with, and its term-kind table maps every term kind
 // to the documented matcher: plain -> the fuzzy algorithm, 't -> exact, 't' -> exact at word boundaries,
 // ^t -> prefix, t$ -> suffix, ^t$ -> equal.
+//@ spec func plainTerm(ts []term, k int, fz bool) bool = k == 0 && !ts[k].inv && ts[k].typ == (fz ? termFuzzy : termExact)
 //@ func BuildPattern
 //@ property C01
 //@ requires patternCache != nil
@@ -695,6 +696,20 @@ package fzf
 //@ ensures fresh(result) ==> result.fuzzy == fuzzy && result.fuzzyAlgo == fuzzyAlgo && result.extended == extended && result.forward == forward && result.withPos == withPos && result.denylist == denylist && result.nth == nth
 //@ ensures fresh(result) ==> result.procFun != nil && mapget(result.procFun, termFuzzy) == fuzzyAlgo && mapget(result.procFun, termEqual) == algo.EqualMatch && mapget(result.procFun, termExact) == algo.ExactMatchNaive && mapget(result.procFun, termExactBoundary) == algo.ExactMatchBoundary && mapget(result.procFun, termPrefix) == algo.PrefixMatch && mapget(result.procFun, termSuffix) == algo.SuffixMatch
 //@ ensures fresh(result) && !extended ==> result.normalize ==> normalize
+// (extended mode) the search scope of a query may be narrowed from cached results of another query only if every term is
+// a plain one of the mode's default kind - no OR, no negation, no ^ $ ' forms, whose matches are not a subset of the
+// matches of their text as a plain term; and the result is sorted only if some term is not negated.
+//@ ensures fresh(result) && extended && result.cacheable ==> cacheable && forall(s, 0, len(result.termSets), forall(k, 0, len(result.termSets[s]), plainTerm(result.termSets[s], k, fuzzy)))
+//@ ensures fresh(result) && extended && result.sortable ==> exists(s, 0, len(result.termSets), exists(k, 0, len(result.termSets[s]), !result.termSets[s][k].inv))
+//@ ensures fresh(result) && extended && !result.sortable ==> forall(s, 0, len(result.termSets), forall(k, 0, len(result.termSets[s]), result.termSets[s][k].inv))
+//@ loop 2
+//@   invariant cacheable ==> old(cacheable) && forall(s, 0, iter, forall(k, 0, len(termSets[s]), plainTerm(termSets[s], k, fuzzy)))
+//@   invariant sortable ==> exists(s, 0, iter, exists(k, 0, len(termSets[s]), !termSets[s][k].inv))
+//@   invariant !sortable ==> forall(s, 0, iter, forall(k, 0, len(termSets[s]), termSets[s][k].inv))
+//@ loop 3
+//@   invariant cacheable ==> old(cacheable) && forall(s, 0, outer, forall(k, 0, len(termSets[s]), plainTerm(termSets[s], k, fuzzy))) && forall(k, 0, iter, plainTerm(termSets[outer], k, fuzzy))
+//@   invariant sortable ==> exists(s, 0, outer, exists(k, 0, len(termSets[s]), !termSets[s][k].inv)) || exists(k, 0, iter, !termSets[outer][k].inv)
+//@   invariant !sortable ==> forall(s, 0, outer, forall(k, 0, len(termSets[s]), termSets[s][k].inv)) && forall(k, 0, iter, termSets[outer][k].inv)
 
 // ---------------------------------------------------------------- option parsing (C17)
 // --tmux=[center|top|bottom|left|right][,SIZE[%]][,SIZE[%]][,border-native]: any argument text either gives
